@@ -2,6 +2,7 @@
     python -c 'import corpus19; corpus19.main(<index>)'   prints the JSON baseline of one value printed FIRST."""
 import ast
 import collections
+import collections.abc
 import dataclasses
 import datetime
 import enum
@@ -115,6 +116,23 @@ def _ledger(v, ctx):
     return P.pretty_call(ctx, type(v), *v.entries)
 
 
+class MyMapping(collections.abc.Mapping):
+    def __init__(self, d):
+        self._d = dict(d)
+
+    def __getitem__(self, k):
+        return self._d[k]
+
+    def __iter__(self):
+        return iter(self._d)
+
+    def __len__(self):
+        return len(self._d)
+
+    def __repr__(self):
+        return 'MyMapping(%r)' % (self._d,)
+
+
 def _rec():
     r = [1]
     r.append(r)
@@ -174,6 +192,16 @@ FACTORIES = [
     ('unregistered', lambda: [Plain(), Plain]),
     ('function', lambda: [len, os.path.join, dict.get]),
     ('wide-list', lambda: list(range(60))),
+    # containers whose members are mapping / sequence LOOK-ALIKES (a printer that "normalises" them in place
+    # would change the type or identity of something reachable from the input)
+    ('chainmap-userdict-layer', lambda: collections.ChainMap(collections.UserDict(a=1), {'b': 2})),
+    ('chainmap-custom-mapping-layer', lambda: collections.ChainMap(MyMapping({'x': [1, 2]}), {}, MyMapping({}))),
+    ('chainmap-nested-proxy', lambda: {'cfg': collections.ChainMap(collections.UserDict(k=[1, 2]), types.MappingProxyType({'z': 0}))}),
+    ('user-collections', lambda: [collections.UserList([1, 2]), collections.UserString('abc'), collections.UserDict(a=[1])]),
+    ('defaultdict-nested', lambda: collections.defaultdict(list, {'a': [collections.defaultdict(int), collections.defaultdict(dict)]})),
+    ('ordereddict-of-mappings', lambda: collections.OrderedDict([('m', MyMapping({'k': 1})), ('d', {'z': 1, 'a': 2})])),
+    ('deque-of-deques', lambda: collections.deque([collections.deque([3, 1, 2], maxlen=3), collections.deque()], maxlen=2)),
+    ('namespace-of-containers', lambda: types.SimpleNamespace(z=[3, 1], a={'b': (1, [2])})),
     ('account', lambda: Account('ann', 10)),
     ('savings-account', lambda: SavingsAccount('di', 2)),
     ('accounts-nested', lambda: {'accounts': [Account('cy', 1), SavingsAccount('di', 2)]}),
